@@ -615,6 +615,38 @@ def l_spectext( ctx ):
     return _l_spec( ctx, Result( 'L-SPECTEXT' ), True )
 
 
+@rule( 'L-PRODUCIBLE', props=( 'C01', ), floor=8 )
+def l_producible( ctx ):
+    """sibling exhaustiveness of the two dispatch tables of the encapsulation grammar: every class that CIP.COMMAND_PARSERS / CPF.ITEM_PARSERS
+    selects as the PARSER of a command / item has a `produce` of its own ( defined in the class or inherited from a base in the same file ) -
+    CIP.produce and CPF.produce call <class>.produce( ... ) for whatever was parsed: a message that parses but whose class has no producer
+    cannot be regenerated ( AttributeError )"""
+    res = Result( 'L-PRODUCIBLE' )
+    src = ctx.src( PARSER )
+    g = grammar_of( ctx )
+    def has_produce( cname, seen=() ):
+        if cname not in g.classes or cname in seen:
+            return False
+        cd = g.classes[cname][0]
+        if any( isinstance( f, ast.FunctionDef ) and f.name == 'produce' for f in cd.body ):
+            return True
+        return any( has_produce( b, seen + ( cname, )) for b in g.bases( cname ))
+    for owner, table in (( 'CIP', 'COMMAND_PARSERS' ), ( 'CPF', 'ITEM_PARSERS' )):
+        cd = src.get( owner )
+        tabs = [ a for a in cd.body if isinstance( a, ast.Assign ) and any( dotted( t ) == table for t in a.targets ) and isinstance( a.value, ast.Dict ) ]
+        if not tabs:
+            raise AnalysisError( '%s.%s not found' % ( owner, table ))
+        for k, v in zip( tabs[0].value.keys, tabs[0].value.values ):
+            cname = ( dotted( v ) or '' ).split( '.' )[-1]
+            if cname not in g.classes:
+                raise AnalysisError( '%s.%s: %s is not a class of the grammar' % ( owner, table, norm_text( v )))
+            if has_produce( cname ):
+                res.ok( src, v, '%s[%s] = %s: has a producer' % ( table, norm_text( k ), cname ))
+            else:
+                res.bad( src, v, '%s[%s] = %s has no produce()' % ( table, norm_text( k ), cname ), 'the command / item parses ( into .%s ) but %s.produce raises AttributeError for it: the parsed message cannot be regenerated' % ( cname, owner ) )
+    return res
+
+
 @rule( 'L-SOCKADDR', props=( 'C01', 'C14' ), floor=8 )
 def l_sockaddr( ctx ):
     """the fields of the struct sockaddr_in carried by the List Identity item and the Legacy 0x0001 reply ( sin_family, sin_port, sin_addr ) are in
